@@ -121,6 +121,11 @@ def rt_part(ctx, c, n):
     outs, codes = K.run_rt_correspondence(ctx, cases, 'rt', seed=ctx.seed)
     c.evaluations += len(cases)
     for p, o, code in zip(cases, outs, codes):
+        if o.get('stuck'):
+            c.failures.append(Failure('correspondence', 'RT: running this program the library did not give control back (%s): a clock thread or a lock is stuck '
+                                      '(e.g. two clocks whose wake-ups are not serialised by one lock). Program: %s' % (o.get('what'), json.dumps(p)),
+                                      theorem='kth_resume_time_rt', found_input=True, replay={'program': p}))
+            break
         if o.get('lost_wakeup'):
             c.failures.append(Failure('correspondence', 'RT: %d of %d routines never ended and NO clock holds a wake-up for them (checked with the main lock '
                                       'held; not a matter of time or load): a yield was not re-scheduled. Program: %s'
